@@ -52,6 +52,7 @@ DerivedOf(s, e) ==
 Run0(e) == [ cfg |-> e, started |-> <<>>, ended |-> {}, failed |-> {}, failedSeq |-> <<>>,
              sig |-> FALSE, afterSig |-> 0, aborted |-> FALSE, returned |-> FALSE,
              pulls |-> 0, pullsAfterSig |-> 0,      \* hook `ready_recv`: functions handed out by the ready stream
+             acts |-> 0, pits |-> 0,                \* calls of fn_interrupt_activate / fn_interrupt_poll_item
              pendingOpen |-> FALSE, sEnded |-> FALSE, intSeen |-> FALSE, obs |-> <<>> ]
 
 (* the Props-level observation of a run *)
@@ -266,7 +267,8 @@ OnSpoll(s, e) ==
          v  |-> h.v
              \o If(~R0.sEnded, "C05", "item after the stream ended")
              \o If(~R0.intSeen, "C08", "stream did not end right after the Interrupted item")
-             \o If(e.f # 0 \/ e.interrupted, "C05", "item without a function") ]
+             \o If(e.f # 0 \/ e.interrupted, "C05", "item without a function")
+             \o If(e.interrupted => R0.pits = 1, "DRIFT", "Interrupted item without fn_interrupt_poll_item") ]
   ELSE IF e.res = "pending" THEN
     LET R == [R0 EXCEPT !.pendingOpen = TRUE] IN
     [ st |-> SetRun(s, r, LogIf(s, R, e)),
@@ -290,6 +292,16 @@ OnDropRef(s, e) ==
            THEN If(C05_NoStall(s.n, EdgesInto(s, o0.order, (1..s.n) \ Range(R.started)), o0.order, Range(R.started), R.ended, e.woken),
                    "C05", "FnRef dropped, function unblocked, no wake-up")
            ELSE <<>> ]
+
+(* The callbacks of the interruptibility state (not a listed property: a mismatch with IStreamMC!Inv_Callbacks *)
+(* is reported as drift): activate at most once and only for an interrupting strategy, poll_item at most    *)
+(* once and not before activate.                                                                            *)
+OnIntCallback(s, e) ==
+  LET r == e.run  R0 == s.runs[r]
+      R == IF e.ev = "int_activate" THEN [R0 EXCEPT !.acts = @ + 1] ELSE [R0 EXCEPT !.pits = @ + 1]
+  IN [ st |-> SetRun(s, r, R),
+       v  |-> If(R.acts <= 1 /\ R.pits <= 1 /\ R.pits <= R.acts /\ R0.cfg.strategy \in {"finish", "poll_n"},
+                 "DRIFT", "interrupt callbacks differ from IStreamMC!Inv_Callbacks") ]
 
 OnPanic(s, e) ==
   [ st |-> s,
@@ -343,6 +355,7 @@ Apply(s, e) ==
          [] e.ev = "drop_ref"      -> OnDropRef(s, e)
          [] e.ev = "drop_stream"   -> OnAbort(s, e)
          [] e.ev = "panic"         -> OnPanic(s, e)
+         [] e.ev \in {"int_activate", "int_poll_item"} /\ HasRun(s, e) -> OnIntCallback(s, e)
          [] e.ev = "fresh_begin"   -> OnFreshBegin(s, e)
          [] e.ev = "fresh_end"     -> OnFreshEnd(s, e)
          [] OTHER                  -> [st |-> s, v |-> <<>>]
